@@ -221,4 +221,40 @@ RunN(prog, st, now, inputs, n) ==   \* outputs of samples now .. now+n-1
        IN [outs |-> <<r.out>> \o rest.outs, st |-> rest.st]
 
 Outputs(prog, inputs, n) == RunN(prog, Boot(prog), 0, inputs, n)
+---------------------------------------------------------------------------
+(* Consistent renaming of user-chosen identifiers (property C16).  sigma is *)
+(* a function on names; names outside its domain are kept.                  *)
+Ren(sigma, x) == IF x \in DOMAIN sigma THEN sigma[x] ELSE x
+
+RECURSIVE RenameE(_,_)
+RenameE(sigma, e) ==
+  LET R(x) == RenameE(sigma, x)
+      RS(xs) == [i \in 1..Len(xs) |-> RenameE(sigma, xs[i])]
+  IN CASE e.k \in {"lit", "now", "sr", "self"} -> e
+       [] e.k = "var"  -> [e EXCEPT !.x = Ren(sigma, e.x)]
+       [] e.k = "neg"  -> [e EXCEPT !.a = R(e.a)]
+       [] e.k = "bin"  -> [e EXCEPT !.a = R(e.a), !.b = R(e.b)]
+       [] e.k = "if"   -> [e EXCEPT !.c = R(e.c), !.t = R(e.t), !.e = R(e.e)]
+       [] e.k = "let"  -> [e EXCEPT !.x = Ren(sigma, e.x), !.a = R(e.a), !.b = R(e.b)]
+       [] e.k = "lett" -> [e EXCEPT !.xs = [i \in 1..Len(e.xs) |-> Ren(sigma, e.xs[i])], !.a = R(e.a), !.b = R(e.b)]
+       [] e.k = "asg"  -> [e EXCEPT !.x = Ren(sigma, e.x), !.a = R(e.a), !.b = R(e.b)]
+       [] e.k = "tup"  -> [e EXCEPT !.es = RS(e.es)]
+       [] e.k = "proj" -> [e EXCEPT !.a = R(e.a)]
+       [] e.k = "lam"  -> [e EXCEPT !.ps = [i \in 1..Len(e.ps) |-> Ren(sigma, e.ps[i])], !.b = R(e.b)]
+       [] e.k = "app"  -> [e EXCEPT !.f = R(e.f), !.as = RS(e.as)]
+       [] e.k = "call" -> [e EXCEPT !.f = Ren(sigma, e.f), !.as = RS(e.as)]
+       [] e.k = "mem"  -> [e EXCEPT !.a = R(e.a)]
+       [] e.k = "delay" -> [e EXCEPT !.a = R(e.a), !.t = R(e.t)]
+
+(* dsp keeps its name (it is the entry point, not a user-chosen identifier) *)
+RenameProg(sigma, prog) ==
+  LET s2 == [x \in DOMAIN sigma \ {"dsp"} |-> sigma[x]]
+      names == DOMAIN prog.fns
+  IN [prog EXCEPT
+        !.fns = [g \in {Ren(s2, f) : f \in names} |->
+                   LET f == CHOOSE f \in names : Ren(s2, f) = g
+                   IN [prog.fns[f] EXCEPT !.ps = [i \in 1..Len(prog.fns[f].ps) |-> Ren(s2, prog.fns[f].ps[i])],
+                                          !.b = RenameE(s2, prog.fns[f].b)]],
+        !.globals = [i \in 1..Len(prog.globals) |->
+                       [x |-> Ren(s2, prog.globals[i].x), a |-> RenameE(s2, prog.globals[i].a)]]]
 =============================================================================
